@@ -126,6 +126,17 @@ CHECKS.update({
         ref="4/C11"),
 })
 
+CHECKS.update({
+    "C07": dict(
+        technique="static analysis: field-level taint from the running VM's fields into the aggregates built by save_state and from the saved state into the aggregates built by from_saved_state (closures included), against a reasoned exemption table",
+        text="Decides the state-capture clause: every field of the running VM and of every trampoline frame flows into the saved "
+             "state and back (caches and re-derived guards exempt by a reasoned table), and the restore re-guards what it puts "
+             "back. The four fields the pinned tree lost across a suspension (this, the block-scope stack, pending finally "
+             "completions of the VM and of frames) were reproduced with awaiting programs and repaired (fix: commit). Schedules, "
+             "settlement order and combinator semantics are not decided.",
+        ref="4/C07"),
+})
+
 NOT_APPLICABLE = {
     "C04": "value equivalence with the TypeScript emit; no structural mechanism exists (DESIGN.md 4/C04)",
     "C09": "behaviour of a fixed-point loader over all graphs x schedules; structural parts are decided under C02/C19",
